@@ -419,6 +419,24 @@ func c20Build(c *fw.Ctx, p c20Param) *schedInst {
 				}
 			}
 		}
+		// a valid upload with a gzip-compressed body is accepted whatever else is in flight, and served byte for byte
+		for i, n := range p.Threads {
+			if strings.HasPrefix(n, "GzUp") {
+				obj := "g" + strings.TrimPrefix(n, "GzUp")
+				if lastStatus[i] != 200 {
+					return "gzrejected", fmt.Sprintf("a valid gzip-compressed upload of b/%s, concurrent with %v, was answered %d", obj, p.Threads, lastStatus[i]), "gzrejected"
+				}
+				if r := d.Do(gcs.ReqGetMedia("json", "b", obj)); r.Status != 200 || string(r.Body) != string(c20GzPayload(obj)) {
+					return "gzbytes", fmt.Sprintf("the gzip-compressed upload of b/%s was acknowledged, afterwards its download answers %d with %d bytes %.40q (sent %d bytes)", obj, r.Status, len(r.Body), r.Body, len(c20GzPayload(obj))), "gzbytes"
+				}
+			}
+			if n == "GzBad" && lastStatus[i] != 400 {
+				return "gzbad", fmt.Sprintf("an upload without object name was answered %d", lastStatus[i]), "gzbad"
+			}
+			if n == "GzPatch" && lastStatus[i] != 200 {
+				return "gzpatch", fmt.Sprintf("a valid patch with a gzip-compressed body, concurrent with %v, was answered %d", p.Threads, lastStatus[i]), "gzpatch"
+			}
+		}
 		return "", "", "ok"
 	}
 	return inst
@@ -426,8 +444,35 @@ func c20Build(c *fw.Ctx, p c20Param) *schedInst {
 
 var c20GcsOps = []string{"CreateBucket", "DeleteBucket", "UploadMedia", "UploadMultipart", "UploadResumable", "Patch", "Delete", "GetMedia", "GetMeta", "List", "Compose", "Copy", "Batch"}
 
+// c20GzPayload is compressible (the deflate stream uses Huffman blocks and back references) and long enough to
+// arrive in two pieces.
+func c20GzPayload(tag string) []byte {
+	return []byte(strings.Repeat("gzip payload "+tag+" 0123456789 abcdefghij ", 40))
+}
+
 func c20GcsReqs(name string) []gcs.HTTPReq {
 	switch name {
+	case "GzUp1", "GzUp2":
+		// a valid upload whose request body is gzip-compressed and arrives slowly
+		obj := "g" + strings.TrimPrefix(name, "GzUp")
+		r := gcs.ReqUploadMedia("b", obj, c20GzPayload(obj), gcs.ObjMeta{ContentType: "text/gz"}, nil, true)
+		r.SlowBody = true
+		return []gcs.HTTPReq{r}
+	case "GzBad":
+		// a gzip-compressed upload that is rejected before its body is read (no object name)
+		r := gcs.ReqUploadMedia("b", "", c20GzPayload("bad"), gcs.ObjMeta{ContentType: "text/gz"}, nil, true)
+		r.SlowBody = true
+		return []gcs.HTTPReq{r}
+	case "GzPatch":
+		// a gzip-compressed JSON body (the JSON decoder stops at the end of the value, before the gzip trailer)
+		r := gcs.ReqPatch("b", "y", []byte(`{"metadata":{"gz":"`+strings.Repeat("v", 200)+`"}}`), nil)
+		r.Body = gcs.Gz(r.Body)
+		if r.Header == nil {
+			r.Header = map[string]string{}
+		}
+		r.Header["Content-Encoding"] = "gzip"
+		r.SlowBody = true
+		return []gcs.HTTPReq{r}
 	case "CreateBucket":
 		return []gcs.HTTPReq{gcs.ReqCreateBucket("b")}
 	case "DeleteBucket":
@@ -635,6 +680,12 @@ func runC20Race(c *fw.Ctx, item *int64) {
 		}
 		// first writes into a bucket that does not exist yet, racing each other and the bucket's creation
 		for _, tr := range [][]string{{"UploadNB1", "UploadNB2"}, {"CreateNB", "UploadNB1"}, {"CreateNB", "UploadNB1", "UploadNB2"}, {"CreateNB", "CreateNB"}} {
+			scen = append(scen, c20Param{Side: "gcs", Store: store, Threads: tr})
+		}
+		// requests with gzip-compressed bodies that arrive slowly (every read of a body is a scheduling point), one
+		// of them rejected before its body is consumed: the transport wrappers (decompress, drain) of two requests
+		// interleave
+		for _, tr := range [][]string{{"GzBad", "GzUp1"}, {"GzUp1", "GzUp2"}, {"GzPatch", "GzUp1"}, {"GzBad", "GzPatch"}, {"GzBad", "GzBad"}} {
 			scen = append(scen, c20Param{Side: "gcs", Store: store, Threads: tr})
 		}
 		// a client that goes away while its request waits for (or holds) object locks
